@@ -350,6 +350,10 @@ def c04_monitor(case, frames):
         if c["out"] is None or c["frame"] is None:
             continue
         cuu, items = c["out"]
+        if any(i[0] == "?cuu0" for i in items):
+            victim = ":".join(scr.lines[-1]) if scr.lines else "the line above the bars (not written by the container)"
+            return ("the output written at event %d begins with 'cursor up 0' + 'erase below'; a terminal executes a zero parameter as the "
+                    "default, one line up, so with %d live rows on the screen it erases %s" % (c["outseq"], live, victim), "cursor-up-zero")
         if any(i[0].startswith("?") for i in items):
             return ("unparsable output at event %d: %s" % (c["outseq"], items), "unparsable-output")
         if cuu != live:
@@ -750,7 +754,7 @@ def pty_replay(data, rows, upto=None):
                 j += 1
             arg, fin = data[i + 2:j], data[j] if j < n else ""
             if fin == "A":
-                r = max(0, r - int(arg or "1"))
+                r = max(0, r - max(1, int(arg or "1")))   # ECMA-48: a zero parameter means the default, 1
             elif fin == "J":
                 window[r] = ""
                 del window[r + 1:]
